@@ -323,4 +323,80 @@ func TestC07(t *testing.T) {
 	})
 	r.Floor("successful_parses", 1000)
 	r.Floor("failed_parses", 200)
+	if r.Violations() == 0 {
+		longHistories(r, locs)
+	}
+}
+
+// longHistories: one VM parses thousands of distinct timestamp texts (far more
+// than any memo or cache inside the VM holds), in two layouts, and keeps coming
+// back to texts it saw 1, 63, 64, 65, 128, 1023, 1024, 1025 … distinct texts
+// ago, also under the other layout. Every line's timestamp() must equal Go's
+// time.Parse of that line's own text with that line's own layout.
+func longHistories(r *ev.Run, locs []*time.Location) {
+	const la, lb = "2006-01-02 15:04:05", "02/01/2006 15:04:05"
+	src := "gauge ts\ncounter n\n/^A (.+)$/ {\n  strptime($1, \"" + la + "\")\n  ts = timestamp()\n  n++\n}\n/^B (.+)$/ {\n  strptime($1, \"" + lb + "\")\n  ts = timestamp()\n  n++\n}\n"
+	rng := ev.NewRNG(ev.Seed(), "c07-long")
+	for h := 0; h < ev.Pick(4, 60); h++ {
+		g := rng.Sub(h)
+		loc := locs[h%len(locs)]
+		p, err := mt.Load(mt.UniqueName("c07long"), src, mt.VMOpts{Loc: loc, CurrentYear: h%2 == 1})
+		if err != nil {
+			r.Violation("compile-rejected", map[string]any{"program": src, "what": err.Error()})
+			return
+		}
+		var ts *metrics.Metric
+		for _, m := range p.Obj.Metrics {
+			if m.Name == "ts" {
+				ts = m
+			}
+		}
+		pl := loc
+		if pl == nil {
+			pl = time.UTC
+		}
+		base := time.Date(2001+h, 2, 3, 4, 5, 6, 0, time.UTC)
+		var texts []string // distinct texts in order of first use
+		n := ev.Pick(2600, 6000)
+		step := time.Duration(g.Range(1, 5000)) * time.Second
+		for i := 0; i < n; i++ {
+			var text string
+			back := []int{1, 2, 63, 64, 65, 66, 127, 128, 129, 1023, 1024, 1025, 2047, 2048, 2049}[g.Intn(15)]
+			if i%5 == 4 && len(texts) > back {
+				text = texts[len(texts)-back]
+				r.Count("long_history_revisits", 1)
+			} else {
+				// day <= 12 so that the text is valid under both layouts
+				tm := base.Add(time.Duration(len(texts)) * step)
+				tm = time.Date(tm.Year(), time.Month(1+tm.Day()%12), 1+int(tm.Month())%12, tm.Hour(), tm.Minute(), tm.Second(), 0, time.UTC)
+				text = tm.Format(la)
+				if g.Intn(3) == 0 {
+					text = tm.Format(lb)
+				}
+				texts = append(texts, text)
+			}
+			which, layout := "A", la
+			if (text[2] == '/') != (g.Intn(6) == 0) { // mostly the matching layout, sometimes the other one
+				which, layout = "B", lb
+			}
+			errd := p.Line("f", which+" "+text)
+			want, perr := time.ParseInLocation(layout, text, pl)
+			d, _ := ts.GetDatum()
+			got := datum.GetInt(d)
+			switch {
+			case perr != nil && !errd:
+				r.Violation("failed-parse-no-error", map[string]any{"history_length": i, "distinct_texts_before": len(texts), "line": which + " " + text, "layout": layout, "what": "time.Parse rejects the text under this layout but the VM raised no error"})
+				p.Close()
+				return
+			case perr == nil && (errd || got != want.Unix()):
+				r.Violation("wrong-instant-after-long-history", map[string]any{"history_length": i, "distinct_texts_before": len(texts), "line": which + " " + text, "layout": layout, "zone": fmt.Sprint(loc), "what": fmt.Sprintf("timestamp() = %d (runtime error: %v: %s), time.Parse gives %d", got, errd, p.VM.RuntimeErrorString(), want.Unix())})
+				p.Close()
+				return
+			}
+			r.Count("long_history_lines", 1)
+		}
+		p.Close()
+		r.Eval(1)
+		r.Distinct(fmt.Sprint("long", h))
+	}
 }
